@@ -1,5 +1,31 @@
 From Coq Require Import ZArith List.
-From Cspuz Require Import Graph.GraphModel Graph.Cycle.
-Theorem line_graph_vertices : forall g, nv (line_graph g) = length (edges g).
-Proof. intros g; reflexivity. Qed.
-Print Assumptions line_graph_vertices.
+From Cspuz Require Import Lib.PyErr Core.Expr Core.Program Graph.GraphModel Graph.Cycle Graph.CycleMain.
+
+(* non-primitive _active_edges_single_cycle: on a well-formed graph with at least one vertex the model posts a program *)
+Theorem cycle_total : forall st acts g,
+  wf_graph g = true -> 1 <= nv g -> length (edges g) <= length acts ->
+  (forall e, In e acts -> is_constraint_like e = true) ->
+  exists st' passed, post_cycle st acts g false = Ok (st', passed) /\ length passed = nv g.
+Proof. exact cycle_total. Qed.
+Print Assumptions cycle_total.
+
+(* ... which has a model extending the caller's assignment iff the chosen edges are empty or one simple cycle *)
+Theorem cycle_exact : forall gsem st acts g en st' passed,
+  wf_graph g = true -> 1 <= nv g -> length (edges g) <= length acts ->
+  flags_ok gsem st en acts -> in_bounds en st = true ->
+  post_cycle st acts g false = Ok (st', passed) ->
+  ((exists en', extends_sat gsem st st' en en') <-> single_cycle g (pattern gsem en acts)).
+Proof. exact cycle_exact. Qed.
+Print Assumptions cycle_exact.
+
+(* ... and in every such model the returned array marks exactly the visited vertices *)
+Theorem cycle_passed : forall gsem st acts g en st' passed en',
+  wf_graph g = true -> 1 <= nv g -> length (edges g) <= length acts ->
+  flags_ok gsem st en acts ->
+  post_cycle st acts g false = Ok (st', passed) ->
+  extends_sat gsem st st' en en' ->
+  length passed = nv g /\
+  forall i, i < nv g ->
+    exists p, nth_error passed i = Some p /\ holds gsem en' p = visited g (pattern gsem en acts) i.
+Proof. exact cycle_passed. Qed.
+Print Assumptions cycle_passed.
